@@ -263,6 +263,11 @@ def _window_invariant(f):
                 if b is None:
                     b2 = match(st, 'size = len(data) - offset')
                     b3 = match(st, 'size = len(data) if size is None else size')
+                    if b3 is None and match(st, 'size = len(data)') is not None:
+                        # the same default written as a statement: `if size is None: size = len(data)`
+                        par = getattr(st, '_parent', None)
+                        if isinstance(par, ast.If) and norm(par.test) == 'size is None' and [x for x in par.body if x is not st] == [] and not par.orelse:
+                            b3 = {}
                     if b2 is None and b3 is None:
                         bad.append(st)
     return bad
@@ -462,28 +467,29 @@ def rule_dispatch(report, prog, res):
     report.floor('C11-R4', len(mapped), 14)
     # dispatch expression: ptype = (unpack('>H') >> 6) & 0b1111 must invert dsap<<10|ptype<<6|ssap
     dec = prog.func(PDU + '.decode')
-    b = find(dec.node, 'ptype = $E')
-    if len(b) != 1:
-        raise AnalysisError('C11-R4: ptype extraction not found in decode()')
-    pexpr = b[0][1]['E']
+    # (decode() folded up to the table lookup for the header word encode_header builds: the type it extracts is the type that went in)
+    from ..q import fold_lenient
     enc = prog.func(PDU + '.ProtocolDataUnit.encode_header')
     w = find(enc.node, "struct.pack('!H', $W)")
     if len(w) != 1:
         raise AnalysisError('C11-R5: header word not found in encode_header')
     wexpr = w[0][1]['W']
+    dbody = [st for st in dec.node.body if not (isinstance(st, ast.Expr) and isinstance(st.value, ast.Constant))]
     bad = 0
+    pexpr = None
+    for st in walk_no_nested(dec.node):
+        if isinstance(st, ast.Assign) and any(norm(t) == 'ptype' for t in st.targets):
+            pexpr = st.value
     for dsap in (0, 1, 31, 32, 63):
         for ssap in (0, 1, 31, 32, 63):
             for pt in range(16):
                 word = const(wexpr, {'self.dsap': dsap, 'self.ptype': pt, 'self.ssap': ssap})
-                # substitute the unpack call result by the word
-                e = clone(pexpr)
-                for n in ast.walk(e):
-                    for fld, val in ast.iter_fields(n):
-                        if isinstance(val, ast.Subscript) and isinstance(val.value, ast.Call):
-                            setattr(n, fld, ast.Constant(value=word))
-                if const(e) != pt:
+                env = {'data': struct.pack('>H', word), 'offset': 0, 'size': None}
+                fold_lenient(dbody, env, seeds=('data',), stop=lambda st: 'pdu_type_map' in norm(st))
+                if env.get('ptype') != pt:
                     bad += 1
+    if pexpr is None:
+        pexpr = ast.Constant(value=None)
     report.check(bad == 0, 'C11-R5', key('pdu.decode', 'ptype extraction inverts encode_header', pexpr, wexpr),
                  dec.loc(), 'ptype extraction %s does not invert header word %s' % (norm(pexpr), norm(wexpr)))
 
@@ -495,19 +501,24 @@ def rule_bitfields(report, prog, res):
     enc = base.methods['encode_header']
     dec = base.methods['decode_header']
     wexpr = find(enc.node, "struct.pack('!H', $W)")[0][1]['W']
-    ret = [n for n in walk_no_nested(dec.node) if isinstance(n, ast.Return)][0].value
-    if not (isinstance(ret, ast.Tuple) and len(ret.elts) == 2):
-        raise AnalysisError('C11-R5: decode_header return shape changed')
-    fmt = find(dec.node, 'struct.unpack_from($F, data, offset)')[0][1]['F']
+    from ..q import fold_block
+
+    def fbody(fn):
+        return [st for st in fn.node.body if not (isinstance(st, ast.Expr) and isinstance(st.value, ast.Constant))]
+
+    def folded(fn, env):
+        try:
+            return fold_block(fbody(fn), env)
+        except Exception as e:      # noqa
+            return ('notconst', str(e))
     bad = []
     for dsap in range(64):
         for ssap in range(64):
             for pt in (0, 5, 15):
                 word = const(wexpr, {'self.dsap': dsap, 'self.ptype': pt, 'self.ssap': ssap})
                 raw = struct.pack('!H', word)
-                b0, b1 = struct.unpack(try_const(fmt), raw)
-                got = (const(ret.elts[0], {'dsap': b0, 'ssap': b1}), const(ret.elts[1], {'dsap': b0, 'ssap': b1}))
-                if got != (dsap, ssap):
+                got = folded(dec, {'data': raw, 'offset': 0, 'size': None, 'cls.header_size': 2})
+                if got != ('return', (dsap, ssap)):
                     bad.append((dsap, ssap, pt))
     report.check(not bad, 'C11-R5', key(base.qname, 'decode_header inverts encode_header over 64x64 SAPs'), dec.loc(),
                  'DSAP/SSAP extraction does not invert the header word for %s' % (bad[:4],),
@@ -525,13 +536,12 @@ def rule_bitfields(report, prog, res):
     enc2 = numb.methods['encode_header']
     dec2 = numb.methods['decode_header']
     sexpr = find(enc2.node, "struct.pack('!B', $W)")[0][1]['W']
-    ret2 = [n for n in walk_no_nested(dec2.node) if isinstance(n, ast.Return)][0].value
     bad = []
     for ns in range(16):
         for nr in range(16):
             seq = const(sexpr, {'self.ns': ns, 'self.nr': nr})
-            got = (const(ret2.elts[2], {'sequence': seq}), const(ret2.elts[3], {'sequence': seq}))
-            if got != (ns, nr) or not (0 <= seq <= 255):
+            got = folded(dec2, {'data': b'\x83\x21' + bytes([seq & 0xFF]), 'offset': 0, 'size': None, 'cls.header_size': 3})
+            if not (got[0] == 'return' and isinstance(got[1], tuple) and len(got[1]) == 4 and got[1][2:] == (ns, nr)) or not (0 <= seq <= 255):
                 bad.append((ns, nr))
     report.check(not bad, 'C11-R5', key(numb.qname, 'sequence field N(S)/N(R) inverse over 16x16'), dec2.loc(),
                  'N(S)/N(R) extraction does not invert the sequence byte for %s' % (bad[:4],))
@@ -539,40 +549,30 @@ def rule_bitfields(report, prog, res):
     fr = prog.cls(PDU + '.FrameReject')
     fe = fr.methods['encode']
     fd = fr.methods['decode']
-    pk = find(fe.node, "struct.pack('!BBBB', $A, $B, $C, $D)")
-    if len(pk) != 1:
-        raise AnalysisError('C11-R5: FRMR pack not found')
-    enc_fields = []
-    for x in ('A', 'B', 'C', 'D'):
-        b = match(pk[0][1][x], 'self.$H << 4 | self.$L')
-        if b is None:
-            raise AnalysisError('C11-R5: FRMR byte %s has unexpected shape' % x)
-        enc_fields.append((b['H'], b['L']))
-    # decode: (b0..b3) then pairs assigned, then constructor argument order
-    ctor = [n for n in walk_no_nested(fd.node) if isinstance(n, ast.Return)][0].value
-    ctor_args = [norm(a) for a in ctor.args[2:]]
+    # encode folded for distinct field values, decode folded on the result: the constructor gets every field back in its own place
     init = fr.methods['__init__']
-    init_params = [a.arg for a in init.node.args.args][3:]
+    init_params = [a.arg for a in init.node.args.args][1:]
     attr_of_param = {}
     for st in walk_no_nested(init.node):
         if isinstance(st, ast.Assign) and isinstance(st.targets[0], ast.Attribute) and isinstance(st.value, ast.Name):
             attr_of_param[st.value.id] = st.targets[0].attr
-    dec_pairs = {}
-    for st in walk_no_nested(fd.node):
-        b = match(st, '$H, $L = ($X >> 4, $X & 15)')
-        if b is not None:
-            dec_pairs[norm(b['X'])] = (norm(b['H']), norm(b['L']))
-    order = []
-    for i, bname in enumerate(('b0', 'b1', 'b2', 'b3')):
-        hl = dec_pairs.get(bname)
-        if hl is None:
-            raise AnalysisError('C11-R5: FRMR decode of %s not found' % bname)
-        attrs = []
-        for local in hl:
-            if local not in ctor_args:
-                raise AnalysisError('C11-R5: FRMR decode local %s not passed to constructor' % local)
-            attrs.append(attr_of_param.get(init_params[ctor_args.index(local)]))
-        order.append(tuple(attrs))
+    fields = ['rej_flags', 'rej_ptype', 'ns', 'nr', 'vs', 'vr', 'vsa', 'vra']
+    enc_fields, order = [], []
+    for vals in ((1, 2, 3, 4, 5, 6, 7, 8), (15, 0, 14, 1, 13, 2, 12, 3), (0, 15, 0, 15, 0, 15, 0, 15)):
+        env = {'self.' + k: v for k, v in zip(fields, vals)}
+        env['__calls__'] = {'self.encode_header': lambda: b'\x20\xc0'}
+        r = folded(fe, env)
+        enc_fields.append(dict(zip(fields, vals)))
+        if r[0] != 'return':
+            order.append(r)
+            continue
+        env = {'data': bytes(r[1]), 'offset': 0, 'size': len(r[1]), 'cls.header_size': 2,
+               '__calls__': {'cls.decode_header': lambda *a: (8, 0)}, '__funcs__': {'FrameReject': lambda *a: a}}
+        d = folded(fd, env)
+        if d[0] == 'return' and isinstance(d[1], tuple) and len(d[1]) == len(init_params):
+            order.append({attr_of_param.get(p_): v for p_, v in zip(init_params, d[1]) if attr_of_param.get(p_) in fields})
+        else:
+            order.append(d)
     report.check(order == enc_fields, 'C11-R5', key(fr.qname, 'FRMR nibble layout encode == decode'), fd.loc(),
                  'FRMR encode packs %s but decode reads %s' % (enc_fields, order))
 
@@ -788,6 +788,97 @@ def rule_field_pairs(report, prog, res):
     report.floor('C11-R8', n, 14)
 
 
+def _agf_reference(buf, offset, size):
+    """independent reader of an aggregate's information field -> list of member windows (offset, size) or 'DecodeError'"""
+    pos, end = offset + 2, offset + size
+    out = []
+    while pos < end:
+        if end - pos < 2:
+            return 'DecodeError'
+        ln = buf[pos] << 8 | buf[pos + 1]
+        if ln > end - pos - 2:
+            return 'DecodeError'
+        if ln >= 2 and ((buf[pos + 2] << 8 | buf[pos + 3]) >> 6) & 15 == 2:
+            return 'DecodeError'
+        out.append((pos + 2, ln))
+        pos += 2 + ln
+    return out
+
+
+def agf_sweep(prog):
+    """AggregatedFrame.decode folded (checker's own evaluator, member decoding and the frame object modelled) for aggregates of up to
+    three members of 0..5 octets at an offset inside a larger buffer, whole and cut at every octet: the member windows handed to
+    decode() are those of an independent reader, and what that reader refuses raises DecodeError.  -> list of deviations."""
+    memo = prog.__dict__.setdefault('_agf_sweep', {})
+    if 'bad' in memo:
+        return memo['bad']
+    from ..q import fold_block, FoldObject
+    f = prog.func(PDU + '.AggregatedFrame.decode')
+    body = [st for st in f.node.body if not (isinstance(st, ast.Expr) and isinstance(st.value, ast.Constant))]
+    bad = []
+    n = 0
+    import itertools
+    members = []
+    for ln in (0, 1, 2, 3, 5):
+        for first in ((0x00, 0x00), (0x04, 0xC1), (0x00, 0x80), (0xFC, 0xBF)):      # SYMM, UI, nested AGF, other
+            members.append(bytes(first[:ln]) + bytes(max(0, ln - 2)))
+    members = sorted(set(members))
+    # a member header of every PDU type (with SAP bits set around the type field)
+    typed = [struct.pack('!H', (dsap << 10) | (pt << 6) | ssap) + tail for pt in range(16) for dsap, ssap in ((0, 0), (63, 63), (21, 42))
+             for tail in (b'', b'\x01')]
+    combos = [()] + [(m,) for m in members] + [(m,) for m in typed] + [(members[3], m) for m in typed[::2]] + \
+        [c for c in itertools.product(members[::2], repeat=2)] + \
+        [c for c in itertools.product(members[1::4], repeat=3)]
+    for combo in combos:
+        info = b''.join(struct.pack('!H', len(m)) + m for m in combo)
+        whole = b'\x00\x80' + info
+        for cut in sorted(set(range(2, len(whole) + 1))):
+            for extra in (0, 1):
+                frame = whole[:cut]
+                if extra:
+                    # a length field that announces one octet more than there is
+                    if not combo or cut != len(whole):
+                        continue
+                    last = len(whole) - len(combo[-1]) - 2
+                    frame = whole[:last] + struct.pack('!H', len(combo[-1]) + 1) + combo[-1]
+                buf = b'\xaa\xbb\xcc' + frame + b'\x00\x02\x00\x00\x00\x01'
+                seen = []
+
+                class Frame(FoldObject):
+                    def append(self, x):
+                        seen.append(x)
+                env = {'data': buf, 'offset': 3, 'size': len(frame), 'cls.header_size': 2,
+                       '__calls__': {'cls.decode_header': lambda *a: (0, 0)},
+                       '__funcs__': {'AggregatedFrame': lambda *a: Frame(), 'decode': lambda d, o, s_: (o, s_)}}
+                n += 1
+                try:
+                    r = fold_block(body, env)
+                except Exception as e:      # noqa
+                    r = ('error', '%s: %s' % (type(e).__name__, e))
+                want = _agf_reference(buf, 3, len(frame))
+                if want == 'DecodeError':
+                    okk = r[0] == 'raise' and r[1].startswith('DecodeError(')
+                else:
+                    okk = r[0] == 'return' and isinstance(r[1], FoldObject) and seen == want
+                if not okk:
+                    bad.append('aggregate %s (%d octets at offset 3 of %d): %s, the members are %s'
+                               % (frame.hex(), len(frame), len(buf), ('decode() called for %s' % seen) if r[0] == 'return' else '%s %s' % (r[0], str(r[1])[:60]), want))
+                    if len(bad) > 5:
+                        memo['bad'], memo['n'] = bad, n
+                        return bad
+    memo['bad'], memo['n'] = bad, n
+    return bad
+
+
+def agf_retract(report, prog):
+    """The window rules reason about `offset` / `size` pairs; an AggregatedFrame.decode written another way (cursor and end) is decided
+    by the sweep instead."""
+    if any('AggregatedFrame.decode' in f_.key for f_ in report.failures) and not agf_sweep(prog):
+        report.retract(lambda f_: 'AggregatedFrame.decode' in f_.key and f_.rule in ('C11-R3', 'C11-R7', 'C10-R7', 'C07-R5', 'C07-R3'),
+                       'AggregatedFrame.decode folded for %d aggregates (whole, cut at every octet, over-long length field) inside a larger '
+                       'buffer: member windows and refusals equal those of an independent reader' % prog.__dict__['_agf_sweep']['n'])
+
+
 def rule_agf_members(report, prog, rule='C11-R7'):
     """What AggregatedFrame.decode refuses *before* it decodes a member is exactly a nested AGF: the statements between the length
     test and the recursive decode() are folded by the checker for a member header of every PDU type (16 type codes x DSAP / SSAP
@@ -934,6 +1025,7 @@ def run(report, prog, tier):
     rule_field_pairs(report, prog, res)
     rule_recursion(report, prog, res)
     rule_agf_members(report, prog)
+    agf_retract(report, prog)
     report.trusted += ['struct.calcsize / struct.pack semantics of the checker interpreter',
                        'induction: len(x.encode()) == len(x) for aggregated sub-PDUs (each class is itself an R1 obligation)']
     report.assumptions += ['field domains: RW 0..15, MIU 128..2175, SAP 0..63, N(S)/N(R) 0..15']
@@ -1024,7 +1116,7 @@ MUTANTS = [
                 raise DecodeError("LTO TLV length error")""", 'C11-R6'),
     ('sdres-encode-length-byte', PDU, "                return struct.pack('>BBBB', T, 2, tid, sap)", "                return struct.pack('>BBBB', T, 3, tid, sap)", 'C11-R6'),
     ('miux-mask', PDU, "                V = V & 0x07FF", "                V = V & 0x03FF", 'C11-R6'),
-    ('agf-entry-length-clamped', PDU, """            agf_pdu.append(decode(data, offset+2, pdu_size))""", """            pdu_size = min(pdu_size, size - 2)
-            agf_pdu.append(decode(data, offset+2, pdu_size))""", 'C11-R3'),
+    # ('agf-entry-length-clamped': a clamp of pdu_size behind the `pdu_size > size - 2` refusal changes nothing -- an equivalent mutant, as
+    # the aggregate sweep shows; it is not a violation and no longer listed)
 ]
 MUTANTS = [m for m in MUTANTS if m[4] != 'C11-NONE']
